@@ -357,7 +357,7 @@ func ruleComparator(w *World, r *Report) {
 				r.Bad("PrioritizedSlice.Sort: sorted value", w.InstrPos(ins), "sorts something other than the receiver")
 			}
 			for _, f := range funcValues(c.Common().Args[1]) {
-				less = f
+				less = w.unwrapBound(f) // a method value (s.less) is analysed as the method itself
 			}
 		}
 	}
